@@ -141,6 +141,7 @@ func buildDiskTree(rng *rand.Rand, root string) {
 		}
 	}
 	mk(root, 0)
+	addSparseFiles(rng, root) // regular files with holes (sparse.go)
 	mt := time.Unix(1500000000, 0)
 	os.Chtimes(root, mt, mt)
 }
